@@ -177,7 +177,7 @@ def judge_c14(chk, r, o):
 
 
 def run_c14(chk, binary, sc, tier):
-    ta, ra, ca = ("{1,2,3,5}", "{1,2,8}", "{1,3,6}") if tier == "quick" else ("{1,2,3,4,5,8}", "{1,2,3,4,7,8}", "{1,2,3,6,8}")
+    ta, ra, ca = ("{1,2,3,5}", "{1,2,8}", "{1,3,9}") if tier == "quick" else ("{1,2,3,4,5,8,9}", "{1,2,3,4,7,8,9}", "{1,2,3,6,8,9}")
     res = run_tlc("DslMC", ATTR_CFG % {"ta": ta, "ra": ra, "ca": ca}, sc, cache=True, timeout=3000)
     if res.violated:
         raise Infra("AttrOK (SourceCommentsInert) violated on spec/Dsl.tla:\n" + res.tail[-1500:])
@@ -238,7 +238,7 @@ def layout_jobs(tier, want_valid, want_invalid):
                         job(d, style=dict(BASE_STYLE, **{k: v}))
         for d in range(9 * scale):                                    # every single local override
             for site in range(40):
-                for alt in range(9):
+                for alt in range(10):
                     job(d, ov=[(site, alt)])
         for k in range(6):                                            # every keyword the grammar admits as identifier, in every identifier position
             for role in range(30):
@@ -252,7 +252,7 @@ def layout_jobs(tier, want_valid, want_invalid):
         jobs.append({"id": "L%d" % len(jobs), "doc": 0, "wide": 1, "viol": 0, "vsite": 0, "style": dict(BASE_STYLE, multi=True), "ov": []})
         jobs.append({"id": "L%d" % len(jobs), "doc": 0, "wide": 1, "viol": 0, "vsite": 0, "style": dict(BASE_STYLE), "ov": []})
         for _ in range(1500 * scale):                                 # random mixtures: any style, up to two overrides
-            job(rng.randrange(0, 2000), style=rstyle(), ov=[(rng.randrange(0, 200), rng.randrange(0, 9)) for _ in range(rng.choice([0, 1, 2]))])
+            job(rng.randrange(0, 2000), style=rstyle(), ov=[(rng.randrange(0, 200), rng.randrange(0, 10)) for _ in range(rng.choice([0, 1, 2]))])
     if want_invalid:
         for v in range(1, NVIOL + 1):
             for site in range(24 * scale):
@@ -261,6 +261,8 @@ def layout_jobs(tier, want_valid, want_invalid):
             for site in range(12 * scale):                            # ... with restriction lists and condition bodies spread over several lines
                 for d in range(3):
                     job(d, viol=v, vsite=site, style=dict(BASE_STYLE, multi=True))
+            for site in range(30):                                    # ... with one separator overridden (alternative 8 of a line break: a bare carriage return)
+                job(site % 3, viol=v, vsite=site // 3, ov=[(site, 8)])
             for site in range(4):                                     # ... behind a full-line comment longer than 64 KiB
                 job(site % 3 * 3, viol=v, vsite=site * 5, style=dict(BASE_STYLE, cmt=1, pad=1))
             for _ in range(80 * scale):                               # the same violations under random layouts (comments / blank lines around the site)
@@ -380,6 +382,16 @@ def run_c03(chk, binary, sc, tier):
             chk.violation("grammatical layout rejected: %s" % [(e["line"], e["col"], e["msg"][:80]) for e in p.get("errs") or []][:2], rep)
         elif clean_model(p["m"]) != expected_model(r["m"]):
             chk.violation("layout parses to a different model than the one written", dict(rep, parsed=clean_model(p["m"]), expected=expected_model(r["m"])))
+        elif r["modular"]:
+            # a module file: every type it declares, every relation it adds to an extended type and every condition carries the module name written
+            want = r["m"]["module"]
+            ext = {t["name"] for t in r["m"]["types"] if t["ext"]}
+            got = [(t["name"], t.get("module", "")) for t in p["m"]["types"] if t["name"] not in ext]
+            got += [(t["name"] + "#" + x["name"], x.get("module", "")) for t in p["m"]["types"] if t["name"] in ext for x in t.get("rels") or []]
+            got += [("condition " + c["name"], c.get("module", "")) for c in p["m"].get("conds") or []]
+            bad = [g for g in got if g[1] != want]
+            if bad:
+                chk.violation("module file: %s attributed to module %r, the header says %r" % (bad[0][0], bad[0][1], want), dict(rep, attributions=got))
     texts = {recs[j["id"]]["text"] for j in jobs}
     nlst = listener_validate(chk, binary, sc, recs, 100000)
     chk.cov.update(traces_validated_against_impl=nlst, evaluations=len(jobs), distinct_nontrivial=len(texts), documents=len(jobs),
